@@ -130,7 +130,10 @@ pub fn u_form(r: &mut Rec, k: u64) {
             r.x(p).uu("rem_euclid", "euclid_method", 0, 1, 2, |a, b| a.rem_euclid(b))
         }
         19 => r.x(part("qr")).uu2("div_rem_euclid", "euclid_method", 0, 1, 2, 3, |a, b| a.div_rem_euclid(b)),
-        20 => r.x(part("q")).uu_opt("checked_div", "method", 0, 1, 2, |a, b| a.checked_div(b)),
+        20 => {
+            r.x(part("q")).uu_opt("checked_div", "trait", 0, 1, 2, |a, b| num_traits::CheckedDiv::checked_div(a, b));
+            r.x(part("q")).uu_opt("checked_div", "method", 0, 1, 2, |a, b| a.checked_div(b))
+        }
         21 => r.x(part("q")).uu_opt("checked_div_euclid", "method", 0, 1, 2, |a, b| a.checked_div_euclid(b)),
         22 => {
             let p = part_r_u(r, "euclid");
@@ -199,7 +202,10 @@ pub fn i_form(r: &mut Rec, k: u64) {
             r.x(p).ii("rem_euclid", "euclid_method", 0, 1, 2, |a, b| a.rem_euclid(b))
         }
         19 => r.x(part("qr")).ii2("div_rem_euclid", "euclid_method", 0, 1, 2, 3, |a, b| a.div_rem_euclid(b)),
-        20 => r.x(part("q")).ii_opt("checked_div", "method", 0, 1, 2, |a, b| a.checked_div(b)),
+        20 => {
+            r.x(part("q")).ii_opt("checked_div", "trait", 0, 1, 2, |a, b| num_traits::CheckedDiv::checked_div(a, b));
+            r.x(part("q")).ii_opt("checked_div", "method", 0, 1, 2, |a, b| a.checked_div(b))
+        }
         21 => r.x(part("q")).ii_opt("checked_div_euclid", "method", 0, 1, 2, |a, b| a.checked_div_euclid(b)),
         22 => {
             let p = part_r_i(r, "euclid");
